@@ -196,7 +196,7 @@ def layout_stage(prop, tier, name):
                        ("offset_bits_are_value_addr", "bits"), ("borrow_bits_are_value_addr", "bits"), ("one_word", "width"),
                        ("dyn_two_words", "width"), ("two_words", "width"), ("thin_one_word", "width"), ("thin_as_ptr_is_block", "heap"),
                        ("refcnt_as_ptr_is_value_addr", "heap"), ("pointer_fmt_is_block", "heap"), ("thin_refcnt_as_ptr_is_block", "heap"),
-                       ("thin_pointer_fmt_is_block", "heap"),
+                       ("thin_pointer_fmt_is_block", "heap"), ("into_thin_refuses_longer", "thin"), ("into_thin_refuses_shorter", "thin"),
                        ("same_value_addr", "union"), ("variant_ok", "union"), ("count_is_two", "union"), ("tag_bit_free", "union")):
             if k in mm and mm[k] is not True:
                 bad(cat, "%s is false" % k)
